@@ -422,12 +422,15 @@ func NoopCancel() {}
 // StatPut gives the file at path the stated existence, owner, group and permission bits.
 // Native runs create the real file (needs root for chown); content is a shell script.
 func StatPut(path string, exists bool, uid, gid uint32, mode uint32) {
-	_ = os.Remove(path)
 	if !exists {
+		_ = os.Remove(path)
 		return
 	}
-	if err := os.WriteFile(path, []byte(scriptBody(path)), 0o700); err != nil {
-		panic(err)
+	// an existing file keeps its content and modification time: only ownership and mode change
+	if _, err := os.Lstat(path); err != nil {
+		if err := os.WriteFile(path, []byte(scriptBody(path)), 0o700); err != nil {
+			panic(err)
+		}
 	}
 	if err := os.Chown(path, int(uid), int(gid)); err != nil {
 		panic(err)
